@@ -671,6 +671,8 @@ def call_method(h: Any, recv: AV, name: str, args: List[AV], kwargs: Dict[str, A
         return Term("streammeth", (recv, name, tuple(args)), ctx.new_id())
     if isinstance(recv, Term) and recv.op == "re.compile" and name in ("match", "fullmatch", "search"):
         return Term("re." + name, (recv,) + tuple(args), ctx.new_id())
+    if isinstance(recv, Term) and recv.op in ("strmeth", "concat", "fstr", "str", "repr", "join", "json.dumps", "strslice", "canonical"):
+        return Term("strmeth", (recv, name, tuple(args)), ctx.new_id())
     if isinstance(recv, (Opaque, Term)):
         return h.opaque_call(recv, name, args, kwargs, node)
     raise h.unsupported(node, f"method {name} on {recv!r}")
